@@ -241,8 +241,9 @@ def run(chk):
         mb = car.massbins
         y0 = mb.initial_values(N0=car.N0)
         t_lo, t_hi = float(car.compute_tms(299.0)), float(car.compute_tms(120.0))
-        for _ in range(8 if chk.tier == "quick" else 40):
-            t = t_lo * (t_hi / t_lo) ** rng.random()
+        t_grid = float(car.compute_tms(min(float(car.IFMR.BH_mi.upper) * 1.02, 295.0)))     # half of the ages: turn-off above the IFMR grid's heaviest progenitor
+        for q_ in range(8 if chk.tier == "quick" else 40):
+            t = t_lo * ((t_grid if q_ % 2 == 0 else t_hi) / t_lo) ** rng.random()
             isev = int(np.where(t > car.tms_u)[0][0])
             mto = float(car.compute_mto(np.array(t)))
             m1 = float(mb.bins.MS.lower[isev])
